@@ -37,7 +37,14 @@ Clauses(e) ==
                     ELSE IF c.err # "" THEN {<<"raised", j>>}
                     ELSE LET exp == ExpectCall(e.fn, e.cvs, c.dt)  def == DefinedCall(e.fn, e.cvs, c.dt)
                          IN  IF Len(c.obs) # Len(exp) THEN {<<"length", j>>}
-                             ELSE IF \E t \in 1..Len(exp) : def[t] /\ c.obs[t] # exp[t] THEN {<<"hist", j>>} ELSE {}
+                             ELSE (IF \E t \in 1..Len(exp) : def[t] /\ c.obs[t] # exp[t] THEN {<<"hist", j>>} ELSE {})
+                                  \* frame: the grid of the space is what it was, nothing else of the space moved,
+                                  \* and the result is still the same at the end of the behaviour unless the caller overwrote it
+                                  \cup (IF c.grid # e.cvs THEN {<<"grid", j>>} ELSE {})
+                                  \cup (IF c.frame # "" THEN {<<"frame", j>>} ELSE {})
+                                  \cup (IF c.obs_end # <<>> /\ (\A t \in 1..Len(exp) : def[t] => c.obs[t] = exp[t])
+                                           /\ (\E t \in 1..Len(exp) : def[t] /\ c.obs_end[t] # exp[t])
+                                         THEN {<<"changed-later", j>>} ELSE {})
                 : j \in 1..Len(e.calls)}
     [] OTHER -> {<<"unknown-kind", 0>>}
 
